@@ -1113,7 +1113,7 @@ class unyt_array(np.ndarray):
         new_dtype = np.dtype(new_dtypekind + str(dsize))
         ret = np.asarray(self.v * conv, dtype=new_dtype)
         if offset:
-            ret = ret - offset
+            np.subtract(ret, offset, ret)
         return type(self)(ret, to_units)
 
     def in_cgs(self):
